@@ -127,6 +127,34 @@ def check(cx):
                        "old_version + 1 on a u8 without a range test: the 256th version of a row panics — and every "
                        "INSERT adds a version to the table's catalog row, so the 256th INSERT into any table panics (D12)")
 
+    # ---- C16.3b every other narrow counter ---------------------------------------------------------------------------
+    r3b = cx.rule("C16.3b", "PANIC: census of overflow-asserting additions on u8/u16 values anywhere in the library: each site is in the "
+                  "justified table (bounded by construction) - a narrow counter of unbounded events (evictions, versions, ...) panics "
+                  "the worker when it wraps", floor=2)
+    NARROW_OK = {
+        "sql::planner::CascadesOptimizer::<'a>::explore_expr": "per-statement statistics of one optimizer run (bounded by the memo of one query)",
+        "<storage::page::BtreePageHeader as storage::core::traits::BtreeMetadata>::add_slots": "slot count of one page, bounded by the page size (<= 64 KiB)",
+        "storage::tuple::Tuple::add_version_with": "judged by C16.3",
+    }
+    seen_n = set()
+    for f in sorted(p.fns.values(), key=lambda x: x.id):
+        if f.id.startswith("axmos_") or "::tests::" in f.id or f.id.startswith("tcp::"):
+            continue
+        for bi, b in enumerate(f.blocks):
+            t = b["term"]
+            if t["t"] == "assert" and str(t.get("msg", "")).startswith("Overflow(Add"):
+                tys = [(f.locals[op_local(o)] if op_local(o) is not None else (op_const(o) or {}).get("ty")) for o in t["mo"]]
+                if not any(x in ("u8", "u16") for x in tys):
+                    continue
+                root = f.root or f.id
+                if root in seen_n:
+                    continue
+                seen_n.add(root)
+                cx.verdict(root in NARROW_OK, r3b, "narrow-add@" + root, f.where(), NARROW_OK.get(root, ""),
+                           "%s adds to a %s with overflow checking and is not in the justified table: a counter of unbounded events "
+                           "panics when it wraps (e.g. the eviction counter after 65535 evictions kills every statement that evicts)" % (
+                               root, "/".join(sorted({x for x in tys if x in ("u8", "u16")}))))
+
     # ---- C16.8 plan constants -------------------------------------------------------------------------------------------
     r8 = cx.rule("C16.8", "PANIC: executors (runtime::ops) do no overflow-asserting arithmetic (+, -, *) on values read from plan-operator "
                  "fields (sql::planner::physical::*): those are statement constants - LIMIT/OFFSET literals, which the parser "
